@@ -8,6 +8,7 @@ import (
 
 	"verifharness/vlib"
 
+	"github.com/lesismal/nbio/mempool"
 	"github.com/lesismal/nbio/nbhttp"
 	"github.com/lesismal/nbio/nbhttp/websocket"
 	"pgregory.net/rapid"
@@ -37,6 +38,10 @@ type Case struct {
 	CutMode      int    `json:"cut_mode"` // 0 whole, 1 byte-at-a-time (bounded), 2 chunks of CutSize, 3 explicit cuts
 	CutSize      int    `json:"cut_size,omitempty"`
 	Cuts         []int  `json:"cuts,omitempty"`
+	// Alloc: the engines' BodyAllocator: "" = the default pool, "aligned" = the library's size-aligned allocator,
+	// "moving" = the harness's tracking allocator in pointer-moving mode (every growing append hands back a new
+	// pointer object and retires the old one, which then reads as poison)
+	Alloc string `json:"alloc,omitempty"`
 }
 
 var inline = func(f func()) { f() }
@@ -46,8 +51,17 @@ type got struct {
 	payload []byte
 }
 
-func newConn(client bool, compress bool, level int, frameLimit int, conn *vlib.FakeConn, sink *[]got) (*websocket.Conn, *nbhttp.Engine) {
-	engine := nbhttp.NewEngine(nbhttp.Config{ServerExecutor: inline, ClientExecutor: inline, SupportServerOnly: true, MaxWebsocketFramePayloadSize: frameLimit})
+func newConn(client bool, compress bool, level int, frameLimit int, conn *vlib.FakeConn, sink *[]got, alloc string) (*websocket.Conn, *nbhttp.Engine) {
+	conf := nbhttp.Config{ServerExecutor: inline, ClientExecutor: inline, SupportServerOnly: true, MaxWebsocketFramePayloadSize: frameLimit}
+	switch alloc {
+	case "aligned":
+		conf.BodyAllocator = mempool.NewAligned()
+	case "moving":
+		tr := vlib.NewTracker()
+		tr.MovePointer = true
+		conf.BodyAllocator = tr
+	}
+	engine := nbhttp.NewEngine(conf)
 	u := websocket.NewUpgrader()
 	u.Engine = engine
 	u.KeepaliveTime = 0
@@ -142,7 +156,7 @@ func runCaseInner(c Case) vlib.Result {
 	}
 	if c.Pipeline == "nbio-nbio" {
 		sconn := &vlib.FakeConn{}
-		sender, _ := newConn(c.SenderClient, c.Compress, c.Level, c.FrameLimit, sconn, nil)
+		sender, _ := newConn(c.SenderClient, c.Compress, c.Level, c.FrameLimit, sconn, nil, c.Alloc)
 		for i, m := range c.Msgs {
 			p := payloadOf(m)
 			mt := websocket.BinaryMessage
@@ -294,7 +308,7 @@ func runCaseInner(c Case) vlib.Result {
 	// receiver
 	var gotMsgs []got
 	rconn := &vlib.FakeConn{}
-	receiver, _ := newConn(!c.SenderClient, c.Compress, c.Level, c.FrameLimit, rconn, &gotMsgs)
+	receiver, _ := newConn(!c.SenderClient, c.Compress, c.Level, c.FrameLimit, rconn, &gotMsgs, c.Alloc)
 	for si, s := range segments(c, wire) {
 		cp := append([]byte(nil), s...)
 		if err := receiver.Parse(cp); err != nil {
@@ -374,6 +388,7 @@ func gen(big int) func(t *rapid.T) Case {
 		c.SenderClient = rapid.Bool().Draw(t, "sender_client")
 		c.Compress = rapid.Bool().Draw(t, "compress")
 		c.Level = rapid.IntRange(-2, 9).Draw(t, "level")
+		c.Alloc = rapid.SampledFrom([]string{"", "", "aligned", "moving"}).Draw(t, "alloc")
 		c.FrameLimit = rapid.SampledFrom([]int{1, 2, 125, 126, 1024, 32768}).Draw(t, "framelimit")
 		c.Masked = c.SenderClient
 		if c.Pipeline == "ref-nbio" && rapid.IntRange(0, 5).Draw(t, "flipmask") == 0 {
